@@ -21,6 +21,10 @@
 -/
 import BumpverVerif.Model.Calendar
 import BumpverVerif.Proofs.CalendarLemmas
+-- the functions this property's mechanism lives in are TRANSLATED from the Python source on every run (Gen/F_*.lean) and proved equal to the hand model:
+import BumpverVerif.Proofs.Tie_isCalGt
+import BumpverVerif.Proofs.Tie_isValidWeekPattern
+import BumpverVerif.Proofs.Tie_quarterFromMonth
 namespace BV
 
 /-! ### later date, never a lower version -/
